@@ -344,6 +344,11 @@ def check(run, prog):
     try:
         cases = [(k, (v, len(k))) for k, v in sorted(tables["trigraphs"].items())] + \
                 [(k, (v, len(k))) for k, v in sorted(tables["digraphs"].items())] + [("a", ("a", 1)), ("?", ("?", 1)), ("<", ("<", 1))]
+        # a trigraph whose last character also begins a digraph: the trigraph wins (translation phase 1 comes first)
+        for t_, tv in sorted(tables["trigraphs"].items()):
+            for d_ in sorted(tables["digraphs"]):
+                if t_[-1] == d_[0]:
+                    cases.append((t_ + d_[1:], (tv, len(t_))))
         for src, want in cases:
             sim = LexerSim(prog, src + "x")
             out = sim.call("peek")
@@ -358,7 +363,9 @@ def check(run, prog):
             wrong = (f"{t3 + d2 + 'a'} (times=3)", want, out)
     except Unsupported as e:
         raise Undecided(f"Lexer.peek is outside the evaluable subset: {e}")
-    run.ob("R-12.1", f"{pk.key}::translation-order", bool(good) and not bad_ and wrong is None,
+    # (the order is decided by the interpretation above -- overlapping spellings included; the shape of the chain of tests is
+    # only reported: a table-driven peek has no chain at all)
+    run.ob("R-12.1", f"{pk.key}::translation-order", not bad_ and wrong is None,
            f"peek() does not test trigraph, then digraph, then plain character "
            f"({len(good)} digraph test(s) reached only after a failed trigraph test, {len(bad_)} misplaced"
            + (f"; peek() on {wrong[0]!r} returns {wrong[2]!r}, expected {wrong[1]!r}" if wrong else "") + ")",
